@@ -2,6 +2,7 @@ package expr
 
 import (
 	"fmt"
+	"math"
 
 	"github.com/shopspring/decimal"
 	"github.com/verily-src/fhirpath-go/fhirpath/system"
@@ -153,6 +154,9 @@ func EvaluateFloorDiv(lhs, rhs system.Any) (system.Any, error) {
 		if right, ok := rhs.(system.Integer); ok {
 			if right == 0 {
 				return nil, system.ErrDivideByZero
+			}
+			if left == math.MinInt32 && right == -1 {
+				return nil, system.ErrIntOverflow
 			}
 			return left.FloorDiv(right), nil
 		}
